@@ -167,18 +167,26 @@ STOCHASTIC_SKLEARN = {"KMeans", "MiniBatchKMeans", "GaussianMixture", "BayesianG
 GOOD_RS_NAMES = {"random_state", "random_state_", "seed", "random_seed", "rng"}
 
 
-def rs_expr_ok(e):
-    """the expression handed over as random_state stems from the object's own generator / the function's parameter"""
+def rs_expr_ok(e, in_strategy=False):
+    """the expression handed over as random_state stems from the object's own generator / the function's parameter.
+    in_strategy: inside a method of a query strategy the RAW constructor argument self.random_state must not reach a drawing callee
+    (with a RandomState instance the caller's generator would be drawn from / aliased); self.random_state_ or a derived copy must be used"""
     if isinstance(e, ast.Constant):
         return e.value is not None and isinstance(e.value, int)
     if isinstance(e, ast.Name):
         return e.id in GOOD_RS_NAMES or e.id.startswith("random_state") or e.id.endswith("seed")
     if isinstance(e, ast.Attribute):
+        if in_strategy and e.attr == "random_state" and isinstance(e.value, ast.Name) and e.value.id == "self":
+            return False
         return e.attr in ("random_state", "random_state_")
     if isinstance(e, ast.Call):
         nm = call_name(e)
-        if nm in ("check_random_state", "deepcopy", "copy"):
+        if nm == "check_random_state" and len(e.args) + len(e.keywords) >= 2:
+            return bool(e.args) and rs_expr_ok(e.args[0])         # check_random_state(rs, multiplier) derives a private copy
+        if nm in ("deepcopy", "copy"):
             return bool(e.args) and rs_expr_ok(e.args[0])
+        if nm in ("check_random_state",):
+            return bool(e.args) and rs_expr_ok(e.args[0], in_strategy)
         if nm in ("randint", "integers"):
             return True
         return False
@@ -252,7 +260,12 @@ def unit_F3(tier):
                             continue
                     if nm in rs_classes and val is None and not _stochastic_use(fn, c, _stochastic_methods(repo, nm, rs_funcs)):
                         continue     # constructed package estimator none of whose drawing methods is used here
-                    if val is None or not rs_expr_ok(val):
+                    cls_of_fn = qual.split(".")[0] if "." in qual else None
+                    in_strat = bool(cls_of_fn) and repo.has_cls(cls_of_fn) and "QueryStrategy" in repo.mro(cls_of_fn) \
+                        and qual.split(".")[-1] not in ("__init__",)
+                    if nm == "check_random_state":
+                        in_strat = False          # the validation helper itself receives the raw argument (and copies it for a multiplier)
+                    if val is None or not rs_expr_ok(val, in_strat):
                         missing.append({"file": rel, "line": c.lineno, "qualname": qual, "kind": "random_state-not-forwarded",
                                         "text": unparse(c)[:100], "origins": [unparse(val) if val is not None else "<omitted>"]})
             if n:
